@@ -16,6 +16,7 @@ import (
 	"strings"
 	"time"
 
+	"google.golang.org/protobuf/types/known/structpb"
 	corev1 "k8s.io/api/core/v1"
 	extv1 "k8s.io/apiextensions-apiserver/pkg/apis/apiextensions/v1"
 	metav1 "k8s.io/apimachinery/pkg/apis/meta/v1"
@@ -23,7 +24,6 @@ import (
 	"k8s.io/apimachinery/pkg/runtime"
 	"k8s.io/apimachinery/pkg/runtime/schema"
 	"k8s.io/apimachinery/pkg/types"
-	"google.golang.org/protobuf/types/known/structpb"
 	"k8s.io/utils/ptr"
 	"sigs.k8s.io/controller-runtime/pkg/client"
 	"sigs.k8s.io/controller-runtime/pkg/reconcile"
@@ -68,11 +68,11 @@ type actor struct {
 	name    string
 	c       *simapi.Client
 	rec     func() error
-	running bool          // a reconcile goroutine exists
-	at      chan string   // the goroutine reports "gate:<abs>" (paused before that call) or "done"
-	release chan string   // the scheduler answers "ok" or "error"
-	pending string        // abs of the call it is paused at
-	listed  int           // instances seen by this reconcile's last List (-1: none yet)
+	running bool        // a reconcile goroutine exists
+	at      chan string // the goroutine reports "gate:<abs>" (paused before that call) or "done"
+	release chan string // the scheduler answers "ok" or "error"
+	pending string      // abs of the call it is paused at
+	listed  int         // instances seen by this reconcile's last List (-1: none yet)
 	recNo   int
 	xrGets  int    // Gets of the XR in this reconcile (claim actor)
 	lastAbs string // classification of the call in flight
@@ -134,12 +134,14 @@ func (e *recEngine) IsRunning(name string) bool {
 	}
 	return e.w.runX
 }
-func (e *recEngine) GetWatches(string) ([]engine.WatchID, error)                          { return nil, nil }
-func (e *recEngine) StartWatches(string, ...engine.Watch) error                           { return nil }
-func (e *recEngine) StopWatches(context.Context, string, ...engine.WatchID) (int, error) { return 0, nil }
-func (e *recEngine) GetCached() client.Client                                             { return e.c }
-func (e *recEngine) GetUncached() client.Client                                           { return e.c }
-func (e *recEngine) GetFieldIndexer() client.FieldIndexer                                 { return e.ix }
+func (e *recEngine) GetWatches(string) ([]engine.WatchID, error) { return nil, nil }
+func (e *recEngine) StartWatches(string, ...engine.Watch) error  { return nil }
+func (e *recEngine) StopWatches(context.Context, string, ...engine.WatchID) (int, error) {
+	return 0, nil
+}
+func (e *recEngine) GetCached() client.Client             { return e.c }
+func (e *recEngine) GetUncached() client.Client           { return e.c }
+func (e *recEngine) GetFieldIndexer() client.FieldIndexer { return e.ix }
 
 // gate pauses the actor's goroutine before a call whose timing matters.
 func (w *world) gate(a *actor, abs string) string {
